@@ -2079,6 +2079,28 @@ pub fn gen_c19(rng: &mut Rng, tier: &str, out: &mut Out) {
         out.d(format!("META {}", hx(&t)));
         out.count("files");
     }
+    // long runs of one kind of item (errors, headers, unmapped methods, classes) before the first
+    // line-mapped method: the scan gives up nowhere
+    for run in if th { vec![1000usize, 4095, 4096, 8192, 8193, 20_000, 65_536, 70_000, 300_000] } else { vec![1000usize, 8192, 8193, 20_000, 70_000] } {
+        for (kind, line) in [("errors", "log line that is not a mapping\n"), ("indented errors", "      # {\"id\":\"x\"}\n"), ("headers", "# k: v\n"),
+                             ("unmapped methods", "    void m() -> a\n"), ("classes", "o.A -> a:\n"), ("blank", "\n")] {
+            if run > 20_000 && kind != "errors" && kind != "unmapped methods" {
+                continue;
+            }
+            for tail in [&b"o.Z -> z:\n    1:2:void m():3:4 -> a\n"[..], b"o.Z -> z:\n    1:2:void m() -> a", b"o.Z -> z:\n    void m() -> a\n"] {
+                let mut t: Vec<u8> = Vec::with_capacity(run * line.len() + 64);
+                if kind == "unmapped methods" {
+                    t.extend_from_slice(b"o.A -> a:\n");
+                }
+                for _ in 0..run {
+                    t.extend_from_slice(line.as_bytes());
+                }
+                t.extend_from_slice(tail);
+                out.d(format!("META {}", hx(&t)));
+                out.count("long_runs_before_line_info");
+            }
+        }
+    }
     // physical lines that yield two items (text after a class colon / after a sourceFile header)
     // around the 50-item horizon of `is_valid`
     for k in 40..56usize {
